@@ -29,6 +29,9 @@ type report struct {
 	Failure    string         `json:"failure,omitempty"`
 	Schedule   []int          `json:"schedule,omitempty"`
 	WallS      float64        `json:"wall_s"`
+	// one explored execution, as an example of what the exploration walks through
+	SampleTrace []string `json:"sample_trace,omitempty"`
+	SampleSched []int    `json:"sample_schedule,omitempty"`
 }
 
 func main() {
